@@ -160,6 +160,223 @@ func doPkg(m *imp, dir, path string) (*types.Package, error) {
 	return p, nil
 }
 
+// plain (non-atomic) fields whose accesses are logged: "Type.field"
+var watch = map[string]bool{
+	"Node.next": true, "Node.prev": true, "List.len": true,
+	"Manager.items": true, "Manager.roundRobinIndex": true,
+	"Response.res": true,
+	"worker.eventLoopSignal": true, "worker.errorChan": true, "worker.tickers": true, "worker.tickerStops": true,
+	"worker.ctx": true, "worker.cancel": true,
+	"Queue.readChunk": true, "Queue.writeChunk": true,
+	"PriorityQueue.insertionCount": true, "PriorityQueue.internal": true,
+	"job.ackId": true, "job.queue": true,
+}
+
+func typeBase(t types.Type) string {
+	s := t.String()
+	s = strings.TrimPrefix(s, "*")
+	if i := strings.Index(s, "["); i >= 0 {
+		s = s[:i]
+	}
+	if i := strings.LastIndex(s, "."); i >= 0 {
+		s = s[i+1:]
+	}
+	return s
+}
+
+// watchedSel: is se an access to a watched field? returns "Type.field" and the owner expression (a pointer)
+func watchedSel(se *ast.SelectorExpr, info *types.Info) (string, ast.Expr, bool) {
+	sel := info.Selections[se]
+	if sel == nil || sel.Kind() != types.FieldVal {
+		return "", nil, false
+	}
+	v, ok := sel.Obj().(*types.Var)
+	if !ok || !v.IsField() {
+		return "", nil, false
+	}
+	// the struct that declares the field: last step of the (possibly promoted) selection
+	recv := sel.Recv()
+	for _, i := range sel.Index()[:len(sel.Index())-1] {
+		st, _ := deref(recv).Underlying().(*types.Struct)
+		if st == nil {
+			return "", nil, false
+		}
+		recv = st.Field(i).Type()
+	}
+	name := typeBase(deref(recv)) + "." + v.Name()
+	if !watch[name] {
+		return "", nil, false
+	}
+	var owner ast.Expr = se.X
+	if tv, ok := info.Types[se.X]; ok && tv.Type != nil {
+		if _, isPtr := tv.Type.Underlying().(*types.Pointer); !isPtr {
+			if !tv.Addressable() {
+				return "", nil, false
+			}
+			owner = &ast.UnaryExpr{Op: token.AND, X: se.X}
+		}
+	}
+	return name, owner, true
+}
+
+func deref(t types.Type) types.Type {
+	if p, ok := t.Underlying().(*types.Pointer); ok {
+		return p.Elem()
+	}
+	return t
+}
+
+// plainNotes: the vt.Plain statements to put in front of statement s (accesses in nested blocks
+// and function literals are handled when those blocks are visited)
+func plainNotes(s ast.Stmt, file, fn string, info *types.Info) []ast.Stmt {
+	writes := map[*ast.SelectorExpr]bool{}
+	markW := func(e ast.Expr) {
+		for {
+			switch x := e.(type) {
+			case *ast.ParenExpr:
+				e = x.X
+				continue
+			case *ast.IndexExpr:
+				e = x.X
+				continue
+			case *ast.SelectorExpr:
+				writes[x] = true
+			}
+			return
+		}
+	}
+	switch st := s.(type) {
+	case *ast.AssignStmt:
+		for _, l := range st.Lhs {
+			markW(l)
+		}
+	case *ast.IncDecStmt:
+		markW(st.X)
+	}
+	var out []ast.Stmt
+	seen := map[string]bool{}
+	visit := func(n ast.Node) bool {
+		switch x := n.(type) {
+		case *ast.BlockStmt, *ast.FuncLit, *ast.CaseClause, *ast.CommClause:
+			if n != ast.Node(s) {
+				return false
+			}
+		case *ast.SelectorExpr:
+			if name, owner, ok := watchedSel(x, info); ok {
+				kind := "R"
+				if writes[x] {
+					kind = "W"
+				}
+				key := name + kind + exprStr(owner)
+				if !seen[key] {
+					seen[key] = true
+					out = append(out, &ast.ExprStmt{X: vtCall("Plain", newSite(file, fn, exprStr(x), "plain:"+kind, name, x.Pos()), owner,
+						&ast.BasicLit{Kind: token.STRING, Value: strconv.Quote(kind)})})
+				}
+			}
+		}
+		return true
+	}
+	if sel, ok := s.(*ast.SelectStmt); ok {
+		// the communication operands are evaluated on entry to the select
+		for _, c := range sel.Body.List {
+			if cc, ok := c.(*ast.CommClause); ok && cc.Comm != nil {
+				ast.Inspect(cc.Comm, visit)
+			}
+		}
+		return out
+	}
+	// statements with an init clause: what follows may use variables the clause declares, so only
+	// the clause itself is hoisted (loop conditions and post statements are covered by the body's notes)
+	switch st := s.(type) {
+	case *ast.ForStmt:
+		if st.Init != nil {
+			ast.Inspect(st.Init, visit)
+		} else if st.Cond != nil {
+			ast.Inspect(st.Cond, visit)
+		}
+		return out
+	case *ast.IfStmt:
+		if st.Init != nil {
+			ast.Inspect(st.Init, visit)
+			return out
+		}
+	case *ast.SwitchStmt:
+		if st.Init != nil {
+			ast.Inspect(st.Init, visit)
+			return out
+		}
+	case *ast.TypeSwitchStmt:
+		return out
+	}
+	ast.Inspect(s, visit)
+	return out
+}
+
+func instrumentPlain(f *ast.File, file string, info *types.Info) bool {
+	any := false
+	var doList func(list []ast.Stmt, fn string) []ast.Stmt
+	var doStmt func(s ast.Stmt, fn string)
+	doList = func(list []ast.Stmt, fn string) []ast.Stmt {
+		var out []ast.Stmt
+		for _, s := range list {
+			if _, isDecl := s.(*ast.DeclStmt); !isDecl {
+				notes := plainNotes(s, file, fn, info)
+				if len(notes) > 0 {
+					any = true
+				}
+				out = append(out, notes...)
+			}
+			doStmt(s, fn)
+			out = append(out, s)
+		}
+		return out
+	}
+	doStmt = func(s ast.Stmt, fn string) {
+		ast.Inspect(s, func(n ast.Node) bool {
+			switch x := n.(type) {
+			case *ast.SelectStmt:
+				for _, c := range x.Body.List {
+					if cc, ok := c.(*ast.CommClause); ok {
+						cc.Body = doList(cc.Body, fn)
+					}
+				}
+				return false
+			case *ast.SwitchStmt:
+				for _, c := range x.Body.List {
+					if cc, ok := c.(*ast.CaseClause); ok {
+						cc.Body = doList(cc.Body, fn)
+					}
+				}
+				return false
+			case *ast.TypeSwitchStmt:
+				for _, c := range x.Body.List {
+					if cc, ok := c.(*ast.CaseClause); ok {
+						cc.Body = doList(cc.Body, fn)
+					}
+				}
+				return false
+			case *ast.BlockStmt:
+				x.List = doList(x.List, fn)
+				return false
+			case *ast.CaseClause:
+				x.Body = doList(x.Body, fn)
+				return false
+			case *ast.CommClause:
+				x.Body = doList(x.Body, fn)
+				return false
+			}
+			return true
+		})
+	}
+	for _, d := range f.Decls {
+		if fd, ok := d.(*ast.FuncDecl); ok && fd.Body != nil {
+			fd.Body.List = doList(fd.Body.List, funcName(fd))
+		}
+	}
+	return any
+}
+
 func funcName(x *ast.FuncDecl) string {
 	n := x.Name.Name
 	if x.Recv != nil && len(x.Recv.List) > 0 {
@@ -187,6 +404,9 @@ func rewriteFile(f *ast.File, name string, info *types.Info) {
 			im.Path.Value = `"` + mod + `/internal/vt/vtime"`
 			im.Name = ast.NewIdent("time")
 		}
+	}
+	if instrumentPlain(f, name, info) {
+		needVT = true
 	}
 	isChan := func(e ast.Expr) bool {
 		if t := info.Types[e].Type; t != nil {
